@@ -142,7 +142,7 @@ func (dist *NegativeBinomialDistribution) SetParameters(parameters Vector) error
 
 func (dist *NegativeBinomialDistribution) ImportConfig(config ConfigDistribution, t ScalarType) error {
 
-  if parameters, ok := config.GetParametersAsFloats(); !ok {
+  if parameters, ok := config.GetParametersAsFloats(); !ok || len(parameters) < 2 {
     return fmt.Errorf("invalid config file")
   } else {
     r := NewScalar(t, parameters[0])
